@@ -84,6 +84,22 @@ def generate(ctx, which, maxrows, cells):
     return frs, args
 
 
+def random_arg(rng, which, n):
+    cols = rng.choice([["k"], ["j"], ["k", "j"], ["j", "k"]])
+    if which == "sort":
+        return {"op": "sort", "keys": cols, "dirs": [rng.choice([1, -1]) for _ in cols]}
+    op = rng.choice(OPS_SUBSET)
+    if op in ("filter", "filter_out"):
+        return {"op": op, "mask": [rng.random() < 0.5 for _ in range(n)]}
+    if op in ("filter_kv", "filter_out_kv"):
+        return {"op": op, "kv": [[c, 2 * rng.randrange(3)] for c in cols]}
+    if op in ("slice", "slice_off"):
+        return {"op": op, "idx": [rng.randrange(n) for _ in range(rng.randint(0, n))]}
+    if op in ("head", "tail", "sample"):
+        return {"op": op, "n": rng.randint(0, n + 1)}
+    return {"op": op, "cols": cols}
+
+
 def run_machine(ctx, which, ops, trace_module="FrameOpsTrace"):
     quick = ctx.tier == "quick"
     if quick:
@@ -127,6 +143,48 @@ def run_machine(ctx, which, ops, trace_module="FrameOpsTrace"):
                     meta.append((pals, form))
                     opcount[a["op"]] = opcount.get(a["op"], 0) + 1
                     ctx.count((repr(fr), repr(a), pals["k"].name, pals["j"].name, form), frames.nontrivial(fr))
+    # key-sensitive sweep: every frame with >= 2 rows once more under a numeric palette pair taken
+    # cyclically from NUMERIC_MIX x NUMERIC_MIX (int64 beyond 2**53 next to floats, uint8, -0.0 ...)
+    mix = [(p, q) for p in frames.NUMERIC_MIX for q in frames.NUMERIC_MIX]
+    cyc = 0
+    for fr in frs:
+        n = len(fr["cell"]["k"])
+        if n < 2:
+            continue
+        for _ in range(len(mix)):
+            p, q = mix[cyc % len(mix)]
+            cyc += 1
+            if p.supports(fr["cell"]["k"]) and q.supports(fr["cell"]["j"]):
+                break
+        else:
+            continue
+        pals = {"k": p, "j": q, "r": frames.ROWID}
+        if which == "sort":
+            a = {"op": "sort", "keys": ["k", "j"], "dirs": [rng.choice([1, -1]), rng.choice([1, -1])]}
+        else:
+            a = {"op": "unique", "cols": rng.choice([["k", "j"], ["j", "k"], ["k"], ["j"]])}
+        rec = execute(fr, a, pals)
+        records.append(rec)
+        meta.append((pals, "direct"))
+        opcount["mix:" + a["op"]] = opcount.get("mix:" + a["op"], 0) + 1
+        ctx.count((repr(fr), repr(a), p.name, q.name, "mix"), frames.nontrivial(fr))
+    # record -> validate direction: larger random frames (4..24 rows, many ties), random arguments,
+    # judged by the same trace spec; reaches size-dependent code paths (e.g. sort kernels) the
+    # exhaustive <= 3-row space cannot
+    nbig = 400 if quick else 4000
+    for _ in range(nbig):
+        n = rng.randint(4, 24)
+        fr = frames.random_frame(rng, n)
+        a = random_arg(rng, which, n)
+        pals = frames.choose_palettes(rng, fr, ["k", "j"])
+        pals["r"] = frames.ROWID
+        if not supported(fr, a, pals):
+            continue
+        rec = execute(fr, a, pals)
+        records.append(rec)
+        meta.append((pals, "direct"))
+        opcount["big:" + a["op"]] = opcount.get("big:" + a["op"], 0) + 1
+        ctx.count((repr(fr), repr(a), pals["k"].name, pals["j"].name, "big"), True)
     bad = ctx.validate(trace_module, records)
     for i, clause in bad:
         rec, (pals, form) = records[i], meta[i]
